@@ -189,7 +189,7 @@ def handleMarshal : List String → String
                     | none => "bad-render"
                     | some out =>
                       "args=" ++ argsS ++ " | out=" ++ out ++ " | pending=" ++
-                        (if canRun th' then "cleared" else "set") ++ " depth=" ++ toString th'.stack.length
+                        (if canRun th' then "cleared" else "set")
             | none => "bad-op"
           | _ => "bad-op"
         | _ => "bad-op"
